@@ -170,6 +170,16 @@ def oracle_real(kind, x, opts, rng_seed):
             return ([] if st in ('converge', 'timeout') else ['%s raised %r' % (kind, r)]), st
         a = r if kind == 'ensemble' else r[0]
         shape_ok(a, cap, '%s(max_imfs=%d)' % (kind, cap))
+        # a cap beyond what any member can produce (the k = n+1, n+2 end of the property's cap range): either no result
+        # (members with different / too few columns raise) or a finite [samples x <= cap] array - never padded with non-finite values
+        st0, full = _run(lambda: sift.sift(x, **kw))
+        if st0 == 'ok':
+            big = full.shape[1] + 2
+            np.random.seed(rng_seed + 1)
+            st2, r2 = _run(lambda: f(x, nensembles=3, ensemble_noise=0.2, nprocesses=1, max_imfs=big, **kw))
+            if st2 == 'ok':
+                a2 = r2 if kind == 'ensemble' else r2[0]
+                shape_ok(a2, big, '%s(max_imfs=%d)' % (kind, big))
         return fails, 'cap%d-cols%d' % (cap, a.shape[1])
     if kind == 'second':
         st, imf = _run(lambda: sift.sift(x, max_imfs=3, **kw))
